@@ -1,25 +1,17 @@
-(* C04 proofs, part 3: the recorded finding classes are not empty in the model (witnesses, by
-   evaluation), and corollaries of the simulation theorem for restricted kinds of interruption. *)
+(* C04 proofs, part 4: the recorded finding class is not empty in the model (witnesses, by
+   evaluation), the witnesses of the two repaired findings now satisfy the property, and a
+   corollary of the simulation theorem for Database::checkpoint(). *)
 From Coq Require Import ZArith List Bool Lia.
-From TV Require Import Model.Persist Proof.Persist Proof.PersistSim.
+From TV Require Import Model.Persist Proof.Persist Proof.PersistRel Proof.PersistSim.
 Import ListNotations.
 Open Scope Z_scope.
 
 (* ------------------------------------------------------------------ witnesses *)
-(* class 1: insert, close + open, insert: the second INSERT fails with "key already exists" *)
-Definition wit1 : list op := [Create 0 0; Ins 0 [(Some 1, 10)]; ReopenClose; Ins 0 [(Some 2, 11)]; Query].
 (* class 2: an image of the page is logged, the WAL is switched off, the page changes, PRAGMA
    wal_checkpoint copies the old image back: the second row is gone, COUNT( * ) still says 2 *)
 Definition wit2 : list op := [Create 0 0; Ins 0 [(Some 1, 10)]; SetWal false; Ins 0 [(Some 2, 11)]; CkptPragma; Query].
 (* the same through drop (without close) + open *)
 Definition wit2y : list op := [Create 0 0; Ins 0 [(Some 1, 10)]; SetWal false; Ins 0 [(Some 2, 11)]; ReopenDrop; Query].
-
-Lemma reopen_refuted_l :
-  in_lang wit1 = true /\ known_class_of false wit1 (run true (init false) wit1) = 1
-  /\ oracle wit1 (run true (init false) wit1) (run false (init false) wit1) = false
-  /\ nth_error (run true (init false) wit1) 3 = Some OErr
-  /\ nth_error (run false (init false) wit1) 2 = Some (OOk 1).
-Proof. vm_compute. repeat split. Qed.
 
 Lemma checkpoint_refuted_l :
   in_lang wit2 = true /\ known_class_of true wit2 (run true (init true) wit2) = 2
@@ -30,26 +22,41 @@ Lemma checkpoint_refuted_l :
   /\ oracle wit2y (run true (init true) wit2y) (run false (init true) wit2y) = false.
 Proof. vm_compute. repeat split. Qed.
 
+(* historical (repaired in /repo): the witness of the former class 1 - insert, close + open,
+   insert: next_row_id restarted at 1 and the second INSERT failed (fixed by 60cb117) - and of the
+   former class 3 - a table dropped, created again, filled, reopened (fixed by affacca).  On the
+   model of the repaired code both are outside every class and satisfy the property: after the
+   reopen the counter continues at 2, the second INSERT succeeds in both runs. *)
+Definition wit1 : list op := [Create 0 0; Ins 0 [(Some 1, 10)]; ReopenClose; Ins 0 [(Some 2, 11)]; Query].
+Definition wit3 : list op := [Create 0 0; Ins 0 [(Some 1, 10)]; DropT 0; Create 0 0; Ins 0 [(Some 2, 11)]; ReopenClose; Query].
+Lemma repaired_witnesses_l :
+  in_lang wit1 = true /\ known_class_of false wit1 (run true (init false) wit1) = 0
+  /\ oracle wit1 (run true (init false) wit1) (run false (init false) wit1) = true
+  /\ nth_error (run true (init false) wit1) 3 = Some (OOk 1)
+  /\ s_next (fst (step (fst (step (fst (step (init false) (Create 0 0))) (Ins 0 [(Some 1, 10)]))) ReopenClose)) = 2
+  /\ in_lang wit3 = true /\ known_class_of false wit3 (run true (init false) wit3) = 0
+  /\ oracle wit3 (run true (init false) wit3) (run false (init false) wit3) = true.
+Proof. vm_compute. repeat split. Qed.
+
 (* non-vacuity of the main theorem: a history with all four modelled interruptions, WAL on,
-   PRIMARY KEY AUTO_INCREMENT table, inside the language and outside every class *)
+   PRIMARY KEY AUTO_INCREMENT table, INSERTs after the reopens (one of them failing: the run without
+   interruptions burns a row id that the reopened run does not), a table dropped and re-created *)
 Definition good : list op :=
-  [Create 0 2; Ins 0 [(None, 10); (None, 11)]; CkptPragma; Del 0 10; ReopenDrop; Query;
-   Create 1 0; CkptApi; Upd 0 11 12; ReopenClose; CkptPragma; Query].
+  [Create 0 2; Ins 0 [(None, 10); (None, 11)]; CkptPragma; Del 0 10; Ins 0 [(Some 2, 12)]; ReopenDrop; Query;
+   Ins 0 [(None, 13)]; Create 1 0; CkptApi; Upd 0 11 14; DropT 1; ReopenClose; Create 1 1; Ins 1 [(Some 5, 15)];
+   Ins 0 [(None, 16)]; CkptPragma; Query].
 Lemma good_ok :
   in_lang good = true /\ known_class_of true good (run true (init true) good) = 0
   /\ oracle good (run true (init true) good) (run false (init true) good) = true
-  /\ nth_error (run true (init true) good) 11
-     = Some (OQ [TPresent [[Some 2; Some 12]] (Some 1) [[]; [[Some 2; Some 12]]; []; []; []; []; []; []];
-                 TPresent [] (Some 0) [[]; []; []; []; []; []; []; []]; TAbsent]).
+  /\ nth_error (run true (init true) good) 17
+     = Some (OQ [TPresent [[Some 2; Some 14]; [Some 3; Some 13]; [Some 4; Some 16]] (Some 3)
+                          [[]; [[Some 2; Some 14]]; [[Some 3; Some 13]]; [[Some 4; Some 16]]; []; []; []; []];
+                 TPresent [[Some 5; Some 15]] (Some 1) [[]; []; []; []; [[Some 5; Some 15]]; []; []; []]; TAbsent]).
 Proof. vm_compute. repeat split. Qed.
 
 (* ------------------------------------------------------------------ Database::checkpoint() alone *)
-(* histories whose only interruptions are calls of Database::checkpoint(): no class can be hit *)
+(* histories whose only interruptions are calls of Database::checkpoint(): the class cannot be hit *)
 Definition only_api (o : op) : bool := match o with ReopenClose | ReopenDrop | CkptPragma | AutoCkpt => false | _ => true end.
-
-Lemma k1_only_api : forall a o, only_api o = true -> k_ro a = false -> k_c1 a = false ->
-  k_ro (k1_step a o) = false /\ k_c1 (k1_step a o) = false.
-Proof. intros [i r c] o H R C. cbn in R, C. subst. destruct o; cbn in *; try discriminate; auto. Qed.
 
 Lemma k2_only_api : forall b o x, only_api o = true -> op_in_lang o = true -> k_c2 b = false -> k_c2 (k2_step b o x) = false.
 Proof.
@@ -60,21 +67,13 @@ Proof.
            end; cbn; rewrite ?C; auto.
 Qed.
 
-Lemma k3_only_api : forall c o, only_api o = true -> k_reopened c = false -> k_reopened (k3_step c o) = false.
-Proof. intros [d r p] o H R. cbn in R. subst. destruct o; cbn in *; try discriminate; auto. Qed.
-
-Lemma kscan_only_api : forall h oa a b c,
-  forallb only_api h = true -> forallb op_in_lang h = true ->
-  k_ro a = false -> k_c1 a = false -> k_c2 b = false -> k_reopened c = false ->
-  kclass (kscan a b c h oa) = 0.
+Lemma kscan_only_api : forall h oa b,
+  forallb only_api h = true -> forallb op_in_lang h = true -> k_c2 b = false -> kclass (kscan b h oa) = 0.
 Proof.
-  induction h as [|o h IH]; intros oa a b c HA HL R C1 C2 R3.
-  - cbn. rewrite C2, R3, C1. now rewrite andb_false_r.
-  - cbn [forallb] in HA, HL. apply andb_true_iff in HA. destruct HA as [HA1 HA]. apply andb_true_iff in HL. destruct HL as [HL1 HL].
-    destruct oa as [|x oa]; cbn [kscan].
-    + cbn. rewrite C2, R3, C1. now rewrite andb_false_r.
-    + destruct (k1_only_api a o HA1 R C1) as [R' C1'].
-      apply IH; auto using k2_only_api, k3_only_api.
+  induction h as [|o h IH]; intros oa b HA HL C2; [now apply kclass_zero_intro|].
+  cbn [forallb] in HA, HL. apply andb_true_iff in HA. destruct HA as [HA1 HA]. apply andb_true_iff in HL. destruct HL as [HL1 HL].
+  destruct oa as [|x oa]; cbn [kscan]; [now apply kclass_zero_intro|].
+  apply IH; auto using k2_only_api.
 Qed.
 
 Lemma checkpoint_api_id_l : forall wal h,
@@ -82,6 +81,5 @@ Lemma checkpoint_api_id_l : forall wal h,
   oracle h (run true (init wal) h) (run false (init wal) h) = true.
 Proof.
   intros wal h HL HA. apply persist_observational_id_l; [exact HL|].
-  unfold in_lang in HL. apply andb_true_iff in HL. destruct HL as [HL _].
   unfold known_class_of. apply kscan_only_api; auto.
 Qed.
